@@ -1,6 +1,7 @@
 """C05 CPC bit-matrix and lossless compression (DESIGN.md section 5 C05): tables + shape."""
 import cpc_rules as P
 import chains
+import cowrite
 
 
 def run(facts, tier):
@@ -11,6 +12,7 @@ def run(facts, tier):
         ("union folds", P.union_rules, 5, "rows are folded with & ((1 << lg_k) - 1); reduce_k folds into a fresh matrix and precedes every merge"),
         ("pair codec", P.pair_codec, 1, "(row << 6) | col everywhere"),
         ("canonical chains", lambda fa: chains.obligations(fa, ["cpc"]), 11, "typed update overloads follow the cross-language canonicalisation contract"),
+        ("couplings", lambda fa: cowrite.obligations(fa, ['u32_table']), 2, "fields that every mutator updates together (counters, extremes, cached values) are still updated together"),
     ):
         o = f(facts)
         obs += o
